@@ -479,7 +479,7 @@ theorem encP_not_absent (ctx : Ctx) (J : JLayer) (F : Facts) :
     have := ok_inj his; subst this; simp [IS.sliceN]
   | .map kt vt n kvs, k, is, _, he => by
     simp only [encP] at he
-    cases hl : kt.isLeaf with
+    cases hl : kt.keyable with
     | false => simp [hl, bind, Except.bind, throw, throwThe, MonadExceptOf.throw] at he
     | true =>
       simp only [hl, Bool.not_true, Bool.false_eq_true, ↓reduceIte, bind_ok, pure, Except.pure] at he
@@ -495,5 +495,72 @@ theorem unmarshalTop_of_ne {ctx : Ctx} {J : JLayer} {F : Facts} {is : IS} (h : i
   cases is with
   | absent => exact absurd rfl h
   | mk => rfl
+
+/-! ### the encoder accepts only values all of whose types are registered -/
+
+mutual
+theorem encP_regd (ctx : Ctx) (J : JLayer) (F : Facts) :
+    ∀ (v : GoVal) (k : Nat) (is : IS), encP ctx J F k v = .ok is → v.regd ctx = true
+  | .inil, _, _, _ => rfl
+  | .basic t p, k, is, he => by
+    simp only [encP, bind_ok, keyOfE_ok, pure, Except.pure] at he
+    obtain ⟨key, hk, _⟩ := he
+    simp [GoVal.regd, hk]
+  | .nilptr t, k, is, he => by
+    simp only [encP, bind_ok, keyOfE_ok, pure, Except.pure] at he
+    obtain ⟨key, hk, _⟩ := he
+    simp [GoVal.regd, hk]
+  | .ptr v, k, is, he => by
+    simp only [encP] at he
+    cases hv : v.isINil with
+    | true => simp [hv] at he
+    | false =>
+      simp only [hv, Bool.false_eq_true, ↓reduceIte] at he
+      simpa [GoVal.regd] using encP_regd ctx J F v (k + 1) is he
+  | .slice et n vs, k, is, he => by
+    simp only [encP, bind_ok, keyOfE_ok, pure, Except.pure] at he
+    obtain ⟨key, hk, xs, hxs, _⟩ := he
+    simp [GoVal.regd, hk, encVals_regd ctx J F vs xs hxs]
+  | .map kt vt n kvs, k, is, he => by
+    simp only [encP] at he
+    cases hl : kt.keyable with
+    | false => simp [hl, bind, Except.bind, throw, throwThe, MonadExceptOf.throw] at he
+    | true =>
+      simp only [hl, Bool.not_true, Bool.false_eq_true, ↓reduceIte, bind_ok, keyOfE_ok, pure, Except.pure] at he
+      obtain ⟨kk, hkk, vk, hvk, xs, hxs, _⟩ := he
+      simp [GoVal.regd, hkk, hvk, encMapKVs_regd ctx J F kt kvs xs hxs]
+  | .struct n fs, k, is, he => by
+    simp only [encP, bind_ok, keyOfE_ok, pure, Except.pure] at he
+    obtain ⟨key, hk, xs, hxs, _⟩ := he
+    simp [GoVal.regd, hk, encFields_regd ctx J F fs xs hxs]
+theorem encVals_regd (ctx : Ctx) (J : JLayer) (F : Facts) :
+    ∀ (vs : GoVals) (iss : ISs), encVals ctx J F vs = .ok iss → vs.regd ctx = true
+  | .nil, _, _ => rfl
+  | .cons v r, iss, he => by
+    simp only [encVals, bind_ok, pure, Except.pure] at he
+    obtain ⟨i, hi, xs, hxs, _⟩ := he
+    simp [GoVals.regd, encP_regd ctx J F v 0 i hi, encVals_regd ctx J F r xs hxs]
+theorem encMapKVs_regd (ctx : Ctx) (J : JLayer) (F : Facts) (kt : GoTy) :
+    ∀ (kvs : GoKVs) (iss : ISKVs), encMapKVs ctx J F kt kvs = .ok iss → kvs.regd ctx = true
+  | .nil, _, _ => rfl
+  | .cons kb v r, iss, he => by
+    simp only [encMapKVs, bind_ok, pure, Except.pure] at he
+    obtain ⟨i, hi, ks, _, xs, hxs, _⟩ := he
+    simp [GoKVs.regd, encP_regd ctx J F v 0 i hi, encMapKVs_regd ctx J F kt r xs hxs]
+theorem encFields_regd (ctx : Ctx) (J : JLayer) (F : Facts) :
+    ∀ (fs : GoKVs) (iss : ISKVs), encFields ctx J F fs = .ok iss → fs.regd ctx = true
+  | .nil, _, _ => rfl
+  | .cons f v r, iss, he => by
+    simp only [encFields, bind_ok, pure, Except.pure] at he
+    obtain ⟨i, hi, xs, hxs, _⟩ := he
+    simp [GoKVs.regd, encP_regd ctx J F v 0 i hi, encFields_regd ctx J F r xs hxs]
+end
+
+/-- "no value" (nil `*internalStruct`) is written for the nil interface only -/
+theorem encP_absent_inil (ctx : Ctx) (J : JLayer) (F : Facts) (v : GoVal) (k : Nat)
+    (h : encP ctx J F k v = .ok .absent) : v = .inil := by
+  cases hv : v.isINil with
+  | true => exact isINil_eq_true hv
+  | false => exact absurd rfl (encP_not_absent ctx J F v k .absent hv h)
 
 end EinoV.C12
